@@ -160,6 +160,23 @@ example : GenDB.recoverWals List.reverse (fun f => if f = 1 then some [(10, 3), 
     some (5, [("wal.Open", 1), ("wal.Read", 1), ("skiplist.Set", 10), ("wal.Write", 10), ("skiplist.Set", 11), ("wal.Write", 11),
       ("wal.Delete", 1), ("wal.Open", 2), ("wal.Read", 2), ("skiplist.Set", 12), ("wal.Write", 12), ("wal.Delete", 2)]) := by decide
 
+
+/-- the Go code itself (`levelManager.compactLN`, translated on every run): the output of a compaction below level 1 is
+    written (`writeTable`) before the file of any input is removed, and a failed write panics without removing anything —
+    at every instant the entries of the inputs are in a published table -/
+theorem C03_code_compaction_order (needLevel : Bool) (lnT : Nat) (ln1 : List Nat) (newIdx : Nat) :
+    GenLevel.compactLN needLevel lnT ln1 newIdx false [] =
+      some (ln1 ++ [lnT],
+        (if needLevel then [("new level", 0)] else []) ++ (ln1.map fun e => ("fetch LN+1", e)) ++
+        [("fetch LN", lnT), ("MergeVersions", ln1.length + 1), ("discardStaleEntries", 0), ("filter.Build", 0), ("table.Build", 0),
+         ("name := maxLevelIdx(LN+1)+1", newIdx), ("PushBack LN+1", newIdx), ("Remove handle LN", lnT)] ++
+        (ln1.map fun e => ("Remove handle LN+1", e)) ++ [("writeTable LN+1", newIdx), ("os.Remove LN", lnT)] ++
+        (ln1.map fun e => ("os.Remove LN+1", e))) ∧
+    GenLevel.compactLN needLevel lnT ln1 newIdx true [] = none := by
+  constructor
+  · rw [LevelTie.compactLN_table]; rfl
+  · rw [LevelTie.compactLN_table]; rfl
+
 #print axioms C03_every_crash_point
 #print axioms C03_open_recovers
 #print axioms C03_acked_visible
@@ -169,4 +186,5 @@ example : GenDB.recoverWals List.reverse (fun f => if f = 1 then some [(10, 3), 
 #print axioms C03_code_fresh_table_name
 #print axioms C03_code_flush_then_delete
 #print axioms C03_code_recovery_merge
+#print axioms C03_code_compaction_order
 end Props
